@@ -416,27 +416,38 @@ class Runner:
     def time_left(self) -> float:
         return self.deadline - time.time()
 
-    def eval_cases(self, cases: list[dict]):
-        """Run implementation + oracle + model on a batch.  Returns list of per-case dicts."""
+    def eval_cases(self, cases: list[dict], tolerant: bool = False):
+        """Run implementation + oracle + model on a batch.  Returns list of per-case dicts.
+        tolerant=True (shrinking): a candidate the harness cannot run is reported as not failing."""
         res = []
         model_in: list[str] = []
         for c in cases:
             try:
                 obs, extra = self.p.run_impl(c)
+                if len(obs) != len(c["lines"]):
+                    raise Infra(f"run_impl returned {len(obs)} observations for {len(c['lines'])} lines")
+                viol = self.p.oracle(c, obs, extra)
             except Infra:
+                if tolerant:
+                    res.append({"case": c, "impl": [], "viol": [], "extra": None, "invalid": True,
+                                "model": [], "tags": [], "diff": []})
+                    continue
                 raise
             except Exception as e:  # a harness bug must not masquerade as a property violation
-                raise Infra(f"harness error in run_impl on {c.get('lines')!r}: {traceback.format_exc()[-1500:]}")
-            if len(obs) != len(c["lines"]):
-                raise Infra(f"run_impl returned {len(obs)} observations for {len(c['lines'])} lines")
-            viol = self.p.oracle(c, obs, extra)
+                if tolerant:
+                    res.append({"case": c, "impl": [], "viol": [], "extra": None, "invalid": True,
+                                "model": [], "tags": [], "diff": []})
+                    continue
+                raise Infra(f"harness error on {c.get('lines')!r}: {traceback.format_exc()[-1500:]}")
             res.append({"case": c, "impl": obs, "viol": viol, "extra": extra})
             model_in.append("reset")
             model_in.extend(c["lines"])
-        if cases:
+        if model_in:
             mo = run_model(self.p.id, model_in)
             k = 0
             for r in res:
+                if r.get("invalid"):
+                    continue
                 n = len(r["case"]["lines"])
                 chunk = mo[k + 1:k + 1 + n]
                 k += 1 + n
@@ -612,7 +623,7 @@ class Runner:
             r = new_viol[0]
 
             def pred(cands):
-                rs = self.eval_cases(cands)
+                rs = self.eval_cases(cands, tolerant=True)
                 return [bool(x["viol"]) and not (p.trigger(x["case"]) in open_ids and not x["diff"]) for x in rs]
             try:
                 small = self.shrink(r["case"], pred)
@@ -632,7 +643,7 @@ class Runner:
                 r = diffs[0]
 
                 def pred(cands):
-                    return [bool(x["diff"]) for x in self.eval_cases(cands)]
+                    return [bool(x["diff"]) for x in self.eval_cases(cands, tolerant=True)]
                 try:
                     small = self.shrink(r["case"], pred)
                     r2 = self.eval_cases([small])[0]
